@@ -6,6 +6,9 @@ import (
 	"io"
 	"log"
 	"net/http"
+	"net/url"
+	"strconv"
+	"strings"
 
 	"nhooyr.io/websocket"
 	"verif/fw"
@@ -30,6 +33,13 @@ var c12Userinfos = []c12Named{
 	{"is-request-host", "example.com"},           // https://example.com@evil.org names evil.org
 	{"is-request-host-port", "example.com:8080"}, // password looks like a port
 	{"is-other-host", "evil.org"},                // https://evil.org@example.com names example.com
+	// long userinfo: the value is filled in so that byte offset N of the header value lies right
+	// behind the first 11 characters of the host ("example.com" for the host that merely
+	// starts with the request's name): a header cut or bounded at a round length
+	{"pad-to-256", ""},
+	{"pad-to-512", ""},
+	{"pad-to-1024", ""},
+	{"pad-to-4096", ""},
 }
 
 var c12Hosts = []c12Named{
@@ -119,6 +129,9 @@ type c12Case struct {
 	// Malformed: Raw names Origin.Host but is not a well-formed URL; an endpoint may refuse it
 	// even where a pattern would authorise the host, and a refusal is a 403 like any other
 	Malformed bool `json:"malformed,omitempty"`
+	// AbsURL: the request line carried an absolute-form target (GET http://host/ HTTP/1.1),
+	// so the request's URL has a scheme and a host of its own
+	AbsURL bool `json:"absolute_form_target,omitempty"`
 	// SecondOrigin: a further Origin header line after the one described above
 	// (the request is judged by the first line, as the first value of a header is
 	// what names "the" origin; a request whose first line is authorised and whose
@@ -132,7 +145,7 @@ type c12Case struct {
 }
 
 // generated part: dims least significant first
-var c12Dims = []int{2, len(c12Patterns), len(c12ReqHosts), len(c12Ports), len(c12Tails), len(c12Schemes), len(c12Userinfos), len(c12Hosts)}
+var c12Dims = []int{2, len(c12Patterns), len(c12ReqHosts), len(c12Ports), len(c12Tails), len(c12Schemes), len(c12Userinfos), len(c12Hosts), 2}
 
 func c12Generated() int {
 	n := 1
@@ -142,7 +155,7 @@ func c12Generated() int {
 	return n
 }
 
-func c12SpecialN() int { return len(c12Special) * len(c12ReqHosts) * len(c12Patterns) * 2 }
+func c12SpecialN() int { return len(c12Special) * len(c12ReqHosts) * len(c12Patterns) * 2 * 2 }
 
 func c12Total() int { return c12SpecialN() + c12Generated() }
 
@@ -156,7 +169,8 @@ func c12Decode(idx int) c12Case {
 		x /= len(c12Patterns)
 		rh := c12ReqHosts[x%len(c12ReqHosts)]
 		x /= len(c12ReqHosts)
-		sp := c12Special[x]
+		sp := c12Special[x%len(c12Special)]
+		cs.AbsURL = x/len(c12Special) == 1
 		cs.ReqName, cs.ReqPort = rh.Name, rh.Port
 		cs.NoOrigin, cs.Hostless, cs.Raw = sp.Absent, !sp.Absent, sp.Value
 		cs.Patterns, cs.PatternKind, cs.SkipVerify = p.Set, p.Kind, skip == 1
@@ -183,8 +197,30 @@ func c12Decode(idx int) c12Case {
 	cs.ReqName, cs.ReqPort = c12ReqHosts[d[2]].Name, c12ReqHosts[d[2]].Port
 	cs.Origin = handshake.Origin{Scheme: c12Schemes[d[5]], Userinfo: c12Userinfos[d[6]].Val, Host: c12Hosts[d[7]].Val, Port: c12Ports[d[3]], Tail: c12Tails[d[4]].Val}
 	cs.HostKind, cs.UserKind, cs.TailKind = c12Hosts[d[7]].Kind, c12Userinfos[d[6]].Kind, c12Tails[d[4]].Kind
+	cs.AbsURL = d[8] == 1
+	if strings.HasPrefix(cs.UserKind, "pad-to-") {
+		n, _ := strconv.Atoi(strings.TrimPrefix(cs.UserKind, "pad-to-"))
+		cs.Origin.Userinfo = strings.Repeat("u", n-len(cs.Origin.Scheme)-len("://")-len("@")-len("example.com"))
+	}
 	cs.Raw = cs.Origin.String()
 	return cs
+}
+
+// redundant: combinations of the two newest dimensions with the older ones that are left out
+// (an absolute-form target and a long userinfo are each combined with every host, pattern
+// set, request host and scheme, but not with every tail, port and userinfo form).
+func (cs c12Case) redundant() bool {
+	if cs.NoOrigin || cs.Hostless || cs.Malformed || cs.SecondOrigin != "" {
+		return false
+	}
+	pad := strings.HasPrefix(cs.UserKind, "pad-to-")
+	if cs.AbsURL && (cs.UserKind != "none" || cs.TailKind != "none" || cs.Origin.Port != "") {
+		return true
+	}
+	if pad && (cs.TailKind != "none" || cs.Origin.Port == "80") {
+		return true
+	}
+	return false
 }
 
 func (cs c12Case) model() handshake.OriginCase {
@@ -243,6 +279,10 @@ func c12One(c *fw.Ctx, cs c12Case) (upgraded bool) {
 		}
 	}
 	r := c11Request("GET", "HTTP/1.1", 1, 1, cs.reqHost(), hdr)
+	if cs.AbsURL {
+		r.URL = &url.URL{Scheme: "http", Host: cs.reqHost(), Path: "/"}
+		r.RequestURI = r.URL.String()
+	}
 	w := c11NewWriter()
 	opts := &websocket.AcceptOptions{InsecureSkipVerify: cs.SkipVerify}
 	if cs.Patterns != nil {
@@ -371,6 +411,9 @@ func c12Run(c *fw.Ctx, shard, nshards int) {
 	var mineIdx []int
 	for i := 0; i < total; i++ {
 		cs := c12Decode(i)
+		if cs.redundant() {
+			continue
+		}
 		if shard == 0 {
 			states[c12ModelState(cs)] = struct{}{}
 			v, _ := cs.model().Decide()
@@ -431,7 +474,7 @@ func init() {
 				// re-run the earlier cases of the pass quietly: they are the history
 				var idx []int
 				for i := 0; i < c12Total(); i++ {
-					if c12Decode(i).PatternKind == cs.PatternKind {
+					if d := c12Decode(i); d.PatternKind == cs.PatternKind && !d.redundant() {
 						idx = append(idx, i)
 					}
 				}
